@@ -544,7 +544,7 @@ PERTURBATIONS = {
 # ----------------------------------------------------------------------------------------------------------------------
 # token renaming: non-ASCII identifiers and unique-token mode (these change structure by design: names only)
 
-NONASCII_NAMES = ['ä', 'λ', '変数', 'é', 'ñandú', 'ж', 'π']
+NONASCII_NAMES = ['ä', 'λ', '変数', 'é', 'ñandú', 'ж', 'π', 'ﬁ', 'ｘ', 'µ', '𝔘']  # the last four are not NFKC-normal: the parser stores 'fi', 'x', 'μ', 'U'
 
 
 def rename_tokens(rng, src, unique, p_nonascii):
